@@ -168,6 +168,11 @@ func (ex *Exec) newRef(st *State, what string, typeKey string) *Term {
 
 func (ex *Exec) buildVal(t types.Type, prefix string, get func(l Leaf) *Term) *Val {
 	t = ex.env.resolve(t)
+	if _, ok := isSeqType(t); ok {
+		l := ex.env.leaves(t)[0]
+		l.Path = prefix
+		return scalar(get(l))
+	}
 	if isOpaqueNamed(t) {
 		ls := ex.env.leaves(t)
 		l := ls[0]
@@ -182,7 +187,7 @@ func (ex *Exec) buildVal(t types.Type, prefix string, get func(l Leaf) *Term) *V
 			l.Path = prefix + l.Path
 			ts[i] = get(l)
 		}
-		return &Val{Sl: &SliceV{ts[0], ts[1], ts[2], ts[3]}}
+		return &Val{Sl: &SliceV{Arr: ts[0], Off: ts[1], Len: ts[2], Cap: ts[3]}}
 	case *types.Struct:
 		v := &Val{Fs: make([]*Val, tt.NumFields())}
 		for i := 0; i < tt.NumFields(); i++ {
@@ -216,6 +221,12 @@ func (ex *Exec) flatten(t types.Type, v *Val, prefix string, put func(l Leaf, t 
 	t = ex.env.resolve(t)
 	if v == nil {
 		panic(oos("flatten nil value of type " + t.String()))
+	}
+	if _, ok := isSeqType(t); ok {
+		l := ex.env.leaves(t)[0]
+		l.Path = prefix
+		put(l, v.T)
+		return
 	}
 	if isOpaqueNamed(t) {
 		l := ex.env.leaves(t)[0]
@@ -319,6 +330,7 @@ func (ex *Exec) typeInv(t types.Type, v *Val, alloc *Term) *Term {
 			if w, signed, ok := intInfo(ex.env.resolve(l.Type)); ok && tm.Sort == SInt {
 				lo, hi := intRange(w, signed)
 				cs = append(cs, Le(IntLitBig(lo), tm), Le(tm, IntLitBig(hi)))
+				noteBounds(tm, lo, hi)
 				return
 			}
 			if isRefType(ex.env.resolve(l.Type)) && alloc != nil {
@@ -350,6 +362,9 @@ func (ex *Exec) walkSlices(t types.Type, v *Val, f func(sl *SliceV)) {
 	if isOpaqueNamed(t) {
 		return
 	}
+	if _, ok := isSeqType(t); ok {
+		return
+	}
 	switch tt := t.Underlying().(type) {
 	case *types.Slice:
 		if v.Sl != nil {
@@ -369,16 +384,19 @@ func (ex *Exec) walkSlices(t types.Type, v *Val, f func(sl *SliceV)) {
 }
 
 func (ex *Exec) sliceWF(sl *SliceV, alloc *Term) *Term {
+	for _, t := range []*Term{sl.Off, sl.Len, sl.Cap} {
+		noteBounds(t, big.NewInt(0), big.NewInt(maxSliceLen))
+	}
 	z := ex.intConst(0)
 	mx := ex.intConst(maxSliceLen)
 	le := ex.sle
 	cs := []*Term{
 		le(z, sl.Off), le(z, sl.Len), le(sl.Len, sl.Cap), le(sl.Cap, mx), le(sl.Off, mx),
 		Implies(Eq(sl.Arr, IntLit(0)), And(Eq(sl.Cap, z), Eq(sl.Off, z))),
-		Ge(sl.Arr, IntLit(0)),
 	}
 	if alloc != nil {
-		cs = append(cs, Or(Eq(sl.Arr, IntLit(0)), Select(alloc, sl.Arr)))
+		// negative references denote embedded arrays and string storage
+		cs = append(cs, Or(Le(sl.Arr, IntLit(0)), Select(alloc, sl.Arr)))
 	}
 	return And(cs...)
 }
